@@ -1,5 +1,6 @@
 import GdslModel.Lemmas.Bfs
 import GdslModel.Lemmas.Extra
+import GdslModel.Lemmas.PathView
 /-!
 # C04 — breadth-first search finds a shortest path iff one exists
 `A = accAdj adj acc` is the graph of accepted edges. All statements are conditional on the loop
@@ -15,6 +16,17 @@ theorem Bfs.path_sound (adj : K → List (K × E)) (acc : K → K → E → Bool
     (h : searchPath adj acc nval .bfs root (some t) false fuel = some (some p, run)) :
     IsPath (accAdj adj acc) root t p :=
   Bfs.path_sound' adj acc nval root t fuel p run h
+
+/-- what the accessors of the returned `Path` hand out: `first_node()` is the root, `last_node()` the target,
+    `first_edge()` leaves the root, `last_edge()` enters the target, `to_vec_nodes()` / `iter_nodes()` is the root
+    followed by the target of every edge, `len()` = number of edges + 1 -/
+theorem Bfs.path_accessors (adj : K → List (K × E)) (acc : K → K → E → Bool) (nval : K → Int) (root t : K) (fuel : Nat)
+    (p : List (Edge K E)) (run : Run K E)
+    (h : searchPath adj acc nval .bfs root (some t) false fuel = some (some p, run)) :
+    pathFirstNode p = some root ∧ pathLastNode p = some t ∧
+    (∃ x, pathFirstEdge p = some x ∧ x.1 = root) ∧ (∃ y, pathLastEdge p = some y ∧ y.2.1 = t) ∧
+    pathNodes p = root :: p.map (·.2.1) ∧ (pathNodes p).length = p.length + 1 :=
+  (Bfs.path_sound adj acc nval root t fuel p run h).accessors
 
 /-- no path with fewer edges exists -/
 theorem Bfs.path_minimal (adj : K → List (K × E)) (acc : K → K → E → Bool) (nval : K → Int) (root t : K) (fuel : Nat)
